@@ -23,7 +23,8 @@ RULE = ("GFF3 file databases with a depth-4 hierarchy, multi-parent and id-less 
         "and by (n, k, checklines)")
 REQUIRED = ["live-handle comparisons", "history steps applied", "content dumps compared with the model", ".bak compared with pre-operation content",
             "auto-generated keys checked for freshness", "faults injected", "faults injected mid-import (beyond the peek window)",
-            "reopen steps", "failpoints fired inside gffutils"]
+            "reopen steps", "failpoints fired inside gffutils", "metamorphic comparisons (batched updates vs single import)",
+            "metamorphic comparisons (delete undoes the last update)"]
 ASSUMPTIONS = [
     "relations accumulate: an update adds level-1 rows for Parent values and level-2 rows = compositions of two level-1 "
     "rows of the state after the update; delete removes exactly the rows mentioning the id; a level-2 row whose "
@@ -172,6 +173,8 @@ def execute(ctx, case):
             history(ctx, case)
         elif case["kind"] == "failpoint":
             failpoint(ctx, case)
+        elif case["kind"] == "metamorphic":
+            metamorphic(ctx, case)
         else:
             fault(ctx, case)
     finally:
@@ -411,6 +414,100 @@ def fault(ctx, case):
         cleanup(dbfn)
 
 
+def by_id(dump, loose_derived=True):
+    out = {}
+    for f in dump["features"]:
+        f = dict(f)
+        f.pop("bin", None)
+        if isinstance(f["attributes"], list):
+            # key order / value order of features that went through a merge is not part of the statement
+            f["attributes"] = sorted([k, sorted(v)] for k, v in f["attributes"])
+        out[f["id"]] = f
+    return out
+
+
+def metamorphic(ctx, case):
+    """update adds features and their relations: importing batches one after the other must give the features and
+    relations of a single import of their concatenation; deleting the last batch again must give back the rest.
+    Works for GFF3 and for GTF (where it also covers the inferred genes/transcripts) without any model of inference."""
+    import gffutils
+    from gvmon.gen import genemodels as GM
+
+    rng = random.Random(case["seed"])
+    fmt = case["fmt"]
+    render = (lambda g: GM.gff3(g, None).replace("##gff-version 3\n", "")) if fmt == "gff3" else (lambda g: GM.gtf(g, None))
+    batches = []
+    for b in range(case["nbatches"]):
+        genes = GM.models(rng, ngenes=rng.randrange(1, 3), prefix="b%d" % b)
+        batches.append(render(genes))
+    one, inc = ctx.tmp(".one.db"), ctx.tmp(".inc.db")
+    try:
+        try:
+            gffutils.create_db("".join(batches), one, from_string=True).conn.close()
+            db = gffutils.create_db(batches[0], inc, from_string=True)
+            snapshots = [dbdump.dump(inc)]
+            for i, b in enumerate(batches[1:]):
+                if (case["seed"] + i) % 2:
+                    db.conn.close()
+                    db = gffutils.FeatureDB(inc)
+                    ctx.mon("reopen steps")
+                how = (case["seed"] + i) % 3
+                if how == 0:
+                    db.update(b, from_string=True, make_backup=False)
+                elif how == 1:
+                    p = ctx.tmp(".batch")
+                    with open(p, "w") as fh:
+                        fh.write(b)
+                    try:
+                        db.update(p, make_backup=False)
+                    finally:
+                        os.unlink(p)
+                else:
+                    from gffutils.feature import feature_from_line
+                    db.update((feature_from_line(l) for l in b.splitlines() if l), make_backup=False)
+                ctx.mon("history steps applied")
+                snapshots.append(dbdump.dump(inc))
+        except Exception as ex:
+            ctx.violation(case, {"why": "metamorphic route raised %r" % (ex,), "fmt": fmt, "batches": batches})
+            return
+        a, b = dbdump.dump(one), snapshots[-1]
+        ctx.mon("metamorphic comparisons (batched updates vs single import)")
+        fa, fb = by_id(a), by_id(b)
+        if fa != fb:
+            only = sorted(set(fa) ^ set(fb))
+            diff = only[:6] or [[fa[k], fb[k]] for k in fa if fa[k] != fb[k]][:2]
+            ctx.violation(case, {"why": "features after create+update(s) differ from a single import of the same lines", "fmt": fmt,
+                                 "difference": diff, "batches": batches})
+            return
+        if a["relations"] != b["relations"]:
+            ra, rb = set(map(tuple, a["relations"])), set(map(tuple, b["relations"]))
+            ctx.violation(case, {"why": "relations after create+update(s) differ from a single import of the same lines", "fmt": fmt,
+                                 "only_single_import": sorted(ra - rb)[:8], "only_updates": sorted(rb - ra)[:8], "batches": batches})
+            return
+        # delete the last batch again: back to the previous snapshot (features and relations)
+        if len(snapshots) > 1:
+            prev = snapshots[-2]
+            gone = sorted(set(by_id(b)) - set(by_id(prev)))
+            try:
+                db.delete([g if i % 2 else db[g] for i, g in enumerate(gone)], make_backup=False)
+            except Exception as ex:
+                ctx.violation(case, {"why": "deleting the last batch raised %r" % (ex,), "fmt": fmt})
+                return
+            c = dbdump.dump(inc)
+            ctx.mon("metamorphic comparisons (delete undoes the last update)")
+            if by_id(c) != by_id(prev) or c["relations"] != prev["relations"]:
+                rc, rp = set(map(tuple, c["relations"])), set(map(tuple, prev["relations"]))
+                ctx.violation(case, {"why": "deleting every feature of the last update does not give back the previous features and relations",
+                                     "fmt": fmt, "relations_left_over": sorted(rc - rp)[:8], "relations_missing": sorted(rp - rc)[:8],
+                                     "features_differ": sorted(set(by_id(c)) ^ set(by_id(prev)))[:8], "batches": batches})
+                return
+        db.conn.close()
+    finally:
+        for p in (one, inc, inc + ".bak"):
+            if os.path.exists(p):
+                os.unlink(p)
+
+
 FAILPOINTS = ["_populate_from_lines", "_id_handler", "_insert", "_do_merge", "_update_relations", "relations_generator",
               "_finalize", "_increment_featuretype_autoid", "set_pragmas"]
 _fp = {"target": None, "nth": 0, "count": 0, "fired": False, "installed": False}
@@ -560,6 +657,11 @@ def run(ctx):
                 execute(ctx, case)
                 ctx.case(("fault", n, k, ck), k < n, sample=case, cls="fault position")
     run_failpoints(ctx)
+    for _ in range(ctx.budget(160, 6000)):
+        case = {"kind": "metamorphic", "fmt": rng.choice(["gff3", "gtf"]), "seed": rng.randrange(10 ** 6), "nbatches": rng.randrange(2, 5)}
+        execute(ctx, case)
+        ctx.case(("metamorphic", case["fmt"], case["seed"], case["nbatches"]), True, sample=case if rng.random() < 0.02 else None,
+                 cls="metamorphic %s" % case["fmt"])
 
 
 def run_failpoints(ctx):
@@ -588,7 +690,8 @@ MANIFEST = {
             "keys must be fresh with respect to every key seen in the history, and the .bak file must equal the pre-operation "
             "dump. The update source is made to fail at every position 0..n (inside and beyond the peek window) and the .bak "
             "file compared again.",
-    "note": "Trusted: gvmon/models/history.py. GTF databases are not part of this check's workload (GTF update semantics "
-            "re-infer extents, which no property fixes). Crash points other than a failing source (e.g. power loss during the "
+    "note": "Trusted: gvmon/models/history.py. GTF databases are covered by the metamorphic cases only (batched updates of new "
+            "genes == single import; deleting a batch undoes it); updates that change existing GTF genes re-infer extents, "
+            "which no property fixes, and are not generated. Crash points other than a failing source (e.g. power loss during the "
             "SQLite commit) are out of reach of this harness.",
 }
